@@ -48,3 +48,24 @@ func (schedMu) Unlock() {}
 
 // RaceMode reports whether the hand-off is hidden from the race detector.
 const RaceMode = true
+
+// Which task is the calling goroutine? A sync.Map here would hand the race detector happens-before
+// edges between tasks (its mutex on the miss path); only the token holder runs, so the current task's
+// recorded goroutine id is compared instead, in plain (uninstrumented) accesses.
+
+//go:norace
+func regTask(t *task) { t.gid = goid() }
+
+//go:norace
+func unregTask(t *task) { t.gid = 0 }
+
+func clearTasks() {}
+
+//go:norace
+func lookupTask(s *Sim) *task {
+	t := s.cur
+	if t != nil && t.gid != 0 && t.gid == goid() {
+		return t
+	}
+	return nil
+}
